@@ -21,7 +21,8 @@ Factory2(b) == [op |-> "bmp_factory2", w |-> b.w, h |-> b.h, bc |-> b.bc, palett
 TsCase(h, seed) == LET p == TS(h, seed) IN
    [op |-> "tileset", bmp |-> Encode(p), custom |-> EncodeCustom(p), top |-> Encode(TopDown(p))]
 TsBad(w, h, bc) == [op |-> "tileset_bad", bmp |-> Encode(B(w, h, bc, MaxPalette(bc), 1))]
-Detect(prefix, pos) == [op |-> "ts_detect", bytes |-> [i \in 1..pos |-> 7] \o prefix \o <<1, 2, 3, 4>>, pos |-> pos, expect |-> IsCustom(prefix)]
+Detect(prefix, pos) == [op |-> "ts_detect", bytes |-> [i \in 1..pos |-> 7] \o prefix \o <<1, 2, 3, 4>>, pos |-> pos, expect |-> IsCustom(prefix),
+                        isBitmap |-> prefix[1] = 66 /\ prefix[2] = 77]          \* the bitmap detector looks at the two bytes "BM" only
 \* ---- seeded random bitmaps: any depth, width 0..70, height -5..5, any palette length, every byte (padding and 4th palette byte too) arbitrary ----
 RS(r) == Seed * 307 + r
 RDepth(r) == Pick(RS(r), 1, 0, <<1, 4, 8>>)
@@ -46,7 +47,7 @@ Init == \/ fam = "full" /\ par \in {<<bc, w, h>> : bc \in Depths, w \in 0..MaxWi
         \/ fam = "wide" /\ par \in {<<bc, w, h>> : bc \in {1}, w \in {65535, 65536, 65537, 131073}, h \in {1, -2}} \cup {<<8, 65536, 1>>, <<4, 65540, -1>>}
         \/ fam = "ts" /\ par \in {<<h, seed>> : h \in {0, 32, -32, 64}, seed \in {0, 5}}
         \/ fam = "tsbad" /\ par = <<>>
-        \/ fam = "det" /\ par \in {<<b1, b2, b3, b4, pos>> : b1 \in {80, 81}, b2 \in {66, 67}, b3 \in {77, 78}, b4 \in {80, 81}, pos \in {0, 3}} \cup {<<66, 77, 1, 2, 0>>}
+        \/ fam = "det" /\ par \in {<<b1, b2, b3, b4, pos>> : b1 \in {80, 81}, b2 \in {66, 67}, b3 \in {77, 78}, b4 \in {80, 81}, pos \in {0, 3}} \cup {<<66, 77, 1, 2, 0>>, <<66, 77, 80, 80, 3>>, <<66, 78, 1, 2, 0>>, <<67, 77, 1, 2, 3>>, <<77, 66, 0, 0, 0>>, <<98, 109, 0, 0, 0>>}
 Next == UNCHANGED vars
 Spec == Init /\ [][Next]_vars
 PartialCount(bc, k) == IF k = 1 THEN 1 ELSE MaxPalette(bc) - 1
